@@ -17,8 +17,7 @@
 (* DIP line kinds: "unit" ($unit definition), "use"/"conv"/"cond" (a node with a unit, a          *)
 (* modification in another unit, a logical expression: scopes whose body succeeds), "bad"/        *)
 (* "convbad" (body raises: malformed $unit, inconvertible modification), "nest" (numerical        *)
-(* expression: opens a second scope over the same units inside the first, which fails as soon as  *)
-(* a custom unit exists).                                                                          *)
+(* expression; see NestedNumerical).                                                               *)
 (* API-level history `hist` (what a caller can do and see) is what the     *)
 (* replay harness executes: Open(units) -> ok | fail, Close(id),           *)
 (* DipParse(text) -> ok | fail, each with the table contents the IDEAL     *)
@@ -31,6 +30,8 @@ CONSTANTS BaseTable,     \* [symbol -> set of admissible prefixes]  (relevant pa
           UnitLists,     \* set of sequences of unit descriptors [sym, pfx, typ] a caller may register
           DipTexts,      \* set of DIP programs: sequences of [kind |-> "unit"|"use"|"bad", sym]
           UndoOnFail,    \* BOOLEAN
+          NestedNumerical, \* BOOLEAN: a numerical expression opens a second scope over the same units inside
+                         \* the first (code before fix 388f9b7), which fails as soon as a custom unit exists
           MaxOps         \* bound on API calls per behaviour
 
 VARIABLES table, types, scopes, nextid, hist,
@@ -193,7 +194,7 @@ DipBody ==
          ln == dip.text[dip.i]
          dup == ln.kind = "unit" /\ ln.sym \in {dip.units[j].sym : j \in 1..Len(dip.units)}
      IN /\ Close(c)
-        /\ IF ln.kind \in {"bad", "convbad"} \/ dup \/ (ln.kind = "nest" /\ dip.units # <<>>)
+        /\ IF ln.kind \in {"bad", "convbad"} \/ dup \/ (NestedNumerical /\ ln.kind = "nest" /\ dip.units # <<>>)
            THEN /\ dip' = NoDip /\ Log("dip", dip.text, "fail")
            ELSE IF dip.i = Len(dip.text)
            THEN /\ dip' = NoDip /\ Log("dip", dip.text, "ok")
